@@ -74,7 +74,7 @@ theorem nullIndex_bits {α : Type} (nonzero : α → Bool) (vs : List α) :
 /-- Path equivalence as a theorem about two Lean functions: for every Go type built from the
 wrappers of `TNode` (required leaf, `optional` non-pointer leaf with its bitmap scan, struct,
 pointer, slice, `list`, `optional`+`list`, map, `optional` map with the bitmap scan over nil-ness,
-nested in any way; the leaf kinds with value conversions — narrow ints, time.Time, decimal, uuid
+`optional` non-pointer struct with the bitmap scan over zero-ness, nested in any way; the leaf kinds with value conversions — narrow ints, time.Time, decimal, uuid
 text — are leaves of the model, their payload being whatever the conversion yields) and every batch of rows — conforming
 or not —, the MIRROR of the typed write path (`typedWrite`: the `writeRowsFunc` closures composed
 over the level bookkeeping of the leaf column buffers, one call for the whole batch) appends to
@@ -104,15 +104,16 @@ example :
   simp [erase, eraseF, mapNode, pairNode, wfN, wfF, leavesN, leavesF, confN, confF]
 
 /-- The bitmap branch of `writeRowsFuncOfOptional` keeps any writer sound: if the wrapped
-`writeRowsFunc` writes `shred` of its node (`Sound`) and writes the absent node for rows holding the
-zero value at the parent's definition level, then the optional wrapper — null index, run scan, one
-call per run — writes `shred` of the optional node, for every batch. (Instances: the optional leaf
-of every kind, the optional map.) -/
-theorem typed_optional_wrapper_sound {n : Node} {f : Nat → WriteRows} (h : Sound n f)
-    (hz : ∀ dm r k (vs : List Val), vs ≠ [] → (∀ v ∈ vs, isSome v = false) →
-      f (dm + 1) r k dm (vs.map unopt) = joinSegs (leavesN n) (vs.map fun _ => absentN n r dm)) :
+`writeRowsFunc` writes `shred` of its node, the absent node for the empty array, and one placeholder
+per row for rows holding the zero value below its definition level (the three clauses of `Sound`),
+then the optional wrapper — null index, run scan, one call per run — does the same for the optional
+node, for every batch; in particular a null run of an ENCLOSING optional wrapper passes through it
+as one null run. (Instances: the optional leaf of every kind, the optional map, the optional
+non-pointer struct.) Since round 4 the side condition on null runs of round 3 is a clause of `Sound`
+and proved for every wrapper. -/
+theorem typed_optional_wrapper_sound {n : Node} {f : Nat → WriteRows} (h : Sound n f) :
     Sound (.opt n) (fun dm => wrOptional (leavesN n) (f (dm + 1))) :=
-  wrOptional_sound h hz
+  wrOptional_sound h
 
 /-- the hypotheses are satisfiable: the leaf writer -/
 example : Sound .leaf wrLeaf := wrLeaf_sound
@@ -128,5 +129,58 @@ theorem typed_optional_map_nil_vs_empty :
     [[⟨none, 0, 0⟩, ⟨none, 0, 1⟩, ⟨some 7, 0, 2⟩], [⟨none, 0, 0⟩, ⟨none, 0, 1⟩, ⟨some 8, 0, 2⟩]] := by
   rw [typedWrite_eq_shred]
   decide
+
+/-- Zero values below a node's definition level — what the rows of a null run of an enclosing
+`optional` non-pointer field (zero scalar, nil map, zero struct) are for every field writer
+underneath — are written as the absent node, once per row, by the typed writer of EVERY Go type of
+`TNode`: the rows of a null run never show up as values or shift the streams of the columns below. -/
+theorem typed_zero_rows_write_absent (n : TNode) (dm r k d c : Nat) (hd : d < dm) :
+    tyN n dm r k d (List.replicate (c + 1) Val.none) =
+      joinSegs (leavesN (erase n)) (List.replicate (c + 1) (absentN (erase n) r d)) :=
+  (tyN_sound n dm r k).2.2 d hd c
+
+example : (0 : Nat) < 1 := by decide
+
+/-- An `optional` NON-pointer struct `struct{ X int32; Y string optional }`: the zero struct is null
+(definition level 0 in both columns), any other value is present — the typed path (`typedWrite`,
+bitmap scan over the struct null index) writes what `shred` writes. Rows: zero struct, `{7, ""}`,
+`{0, "s"}` (the abstraction of the required zero scalar is a leaf without payload). -/
+theorem typed_optional_struct_zero_is_null :
+    typedWrite (.struct (.cons (.optStruct (.cons .leaf (.cons .optLeaf .nil))) .nil))
+      [.struct [.none], .struct [.some (.struct [.prim 7, .none])],
+       .struct [.some (.struct [.none, .some (.prim 9)])]] =
+    [[⟨none, 0, 0⟩, ⟨some 7, 0, 1⟩, ⟨none, 0, 1⟩], [⟨none, 0, 0⟩, ⟨none, 0, 1⟩, ⟨some 9, 0, 2⟩]] := by
+  rw [typedWrite_eq_shred]
+  decide
+
+/-- A map whose values carry the `optional` tag on a non-pointer Go type
+(`map[K]V` with `parquet-value:",optional"`; since the round-4 repair `writeRowsFuncOfMap` wraps the
+value writer with the optional wrapper): an entry holding the zero value is a null value one level
+below an entry holding any other value, in the stream of the value column; the key column is not
+affected. Rows: `{a: 0}`, `{a: 7, b: 0}`, nil map. -/
+theorem typed_map_optional_value_zero_is_null :
+    typedWrite (.struct (.cons (.map .leaf .optLeaf) .nil))
+      [.struct [.struct [.list [.struct [.prim 1, .none]]]],
+       .struct [.struct [.list [.struct [.prim 1, .some (.prim 7)], .struct [.prim 2, .none]]]],
+       .struct [.none]] =
+    [[⟨some 1, 0, 1⟩, ⟨some 1, 0, 1⟩, ⟨some 2, 1, 1⟩, ⟨none, 0, 0⟩],
+     [⟨none, 0, 1⟩, ⟨some 7, 0, 2⟩, ⟨none, 1, 1⟩, ⟨none, 0, 0⟩]] := by
+  rw [typedWrite_eq_shred]
+  decide
+
+/-- The typed path BEFORE the repair (`nullIndexStruct` set every bit: a non-pointer struct was never
+null): the zero struct of the first row is written one definition level up, as a present group,
+whereas the repaired wrapper and `shred` (the reflection paths, `isNullValue`) write the null group. -/
+theorem typed_optional_struct_before_fix_witness :
+    wrOptionalAllPresent 2 (fun r k d vs => tyF (.cons .leaf (.cons .optLeaf .nil)) 1 r k d (vs.map fieldsOf))
+        0 0 0 [.none, .some (.struct [.prim 7, .none])] =
+      [[⟨none, 0, 1⟩, ⟨some 7, 0, 1⟩], [⟨none, 0, 1⟩, ⟨none, 0, 1⟩]] ∧
+    wrOptional 2 (fun r k d vs => tyF (.cons .leaf (.cons .optLeaf .nil)) 1 r k d (vs.map fieldsOf))
+        0 0 0 [.none, .some (.struct [.prim 7, .none])] =
+      [[⟨none, 0, 0⟩, ⟨some 7, 0, 1⟩], [⟨none, 0, 0⟩, ⟨none, 0, 1⟩]] ∧
+    joinSegs 2 ([Val.none, .some (.struct [.prim 7, .none])].map
+        (shredN (.opt (.group (.cons .leaf (.cons (.opt .leaf) .nil)))) 0 0 0)) =
+      [[⟨none, 0, 0⟩, ⟨some 7, 0, 1⟩], [⟨none, 0, 0⟩, ⟨none, 0, 1⟩]] := by
+  refine ⟨by decide, by decide, by decide⟩
 
 end PqModel.Props.C03
